@@ -1,5 +1,6 @@
 import Rpft.Drv.Json
 import Rpft.Compile
+import Rpft.CompileRender
 import Rpft.Gen.Tables
 namespace Rpft.Drv.CompileD
 open Rpft.Drv
@@ -43,50 +44,46 @@ partial def eventOfJ (j : Json) : Except String Event := do
   else if k = "close".toList then pure (.closeGroup (getStrD j "row_id" []))
   else throw "event kind"
 
-def destJ : Dest → Json
-  | .node u => strJ u
-  | _ => Json.null
+/-! JSON of the RENDERED node (`Compile.renderNode : NodeM → Flow.Node`): what is compared with the
+real compiler's output is exactly the structure the theorems of `Props/C01` speak about -/
 
-def catJ (c : Cat) : Json :=
-  Json.mkObj [("uuid", strJ c.uid), ("name", strJ c.name), ("exit_uuid", strJ c.exitUid)]
+def fExitJ (e : Flow.Exit) : Json :=
+  Json.mkObj [("uuid", strJ e.uuid), ("destination_uuid", match e.dest with | some d => strJ d | none => Json.null)]
 
-def exitJ (c : Cat) : Json :=
-  Json.mkObj [("uuid", strJ c.exitUid), ("destination_uuid", destJ c.dest)]
+def fCatJ (c : Flow.Category) : Json :=
+  Json.mkObj [("uuid", strJ c.uuid), ("name", strJ c.name), ("exit_uuid", strJ c.exitUuid)]
 
-def caseJ (k : Compile.Case) : Json :=
-  Json.mkObj [("uuid", strJ k.uid), ("type", strJ k.type), ("category_uuid", strJ k.catUid),
-    ("arguments", Json.arr (k.args.map fun a => match a with | some s => strJ s | none => Json.null).toArray)]
+def fCaseJ (k : Flow.Case) : Json :=
+  Json.mkObj [("uuid", strJ k.uuid), ("type", strJ k.type), ("category_uuid", strJ k.catUuid),
+    ("arguments", strListJ k.args)]
 
-def routerJ : RouterM → Json
-  | .sw r =>
-    let base := [("type", Json.str "switch"), ("operand", strJ r.operand),
-      ("cases", Json.arr (r.cases.map caseJ).toArray),
-      ("categories", Json.arr (r.allCats.map catJ).toArray),
-      ("default_category_uuid", strJ r.dflt.uid)]
-    let wait := match r.wait, r.noResp with
-      | some (n + 1), some nr => [("wait", Json.mkObj [("type", Json.str "msg"),
-          ("timeout", Json.mkObj [("seconds", Json.num ((n + 1 : Nat) : JsonNumber)), ("category_uuid", strJ nr.uid)])])]
-      | some _, _ => [("wait", Json.mkObj [("type", Json.str "msg")])]
-      | none, _ => []
-    let rn := match r.resultName with
+def fRouterJ : Flow.Router → Json
+  | .switch operand cases cats d w rn =>
+    let base := [("type", Json.str "switch"), ("operand", strJ operand),
+      ("cases", Json.arr (cases.map fCaseJ).toArray),
+      ("categories", Json.arr (cats.map fCatJ).toArray),
+      ("default_category_uuid", strJ d)]
+    let wait := match w with
+      | some (some (secs, t)) => [("wait", Json.mkObj [("type", Json.str "msg"),
+          ("timeout", Json.mkObj [("seconds", Json.num (secs : JsonNumber)), ("category_uuid", strJ t)])])]
+      | some none => [("wait", Json.mkObj [("type", Json.str "msg")])]
+      | none => []
+    let rnj := match rn with
       | some n => [("result_name", strJ n)]
       | none => []
-    Json.mkObj (base ++ wait ++ rn)
-  | .rnd r =>
-    let rn := match r.resultName with
-      | some n => if n.isEmpty then [] else [("result_name", strJ n)]
+    Json.mkObj (base ++ wait ++ rnj)
+  | .random cats rn =>
+    let rnj := match rn with
+      | some n => [("result_name", strJ n)]
       | none => []
-    Json.mkObj ([("type", Json.str "random"), ("categories", Json.arr (r.cats.map catJ).toArray)] ++ rn)
+    Json.mkObj ([("type", Json.str "random"), ("categories", Json.arr (cats.map fCatJ).toArray)] ++ rnj)
 
-def nodeJ (n : NodeM) : Json :=
-  let exits := match n.router with
-    | none => [Json.mkObj [("uuid", strJ n.dexitUid), ("destination_uuid", destJ n.dexitDest)]]
-    | some (.sw r) => r.allCats.map exitJ
-    | some (.rnd r) => r.cats.map exitJ
-  Json.mkObj [("uuid", strJ n.uid),
-    ("actions", Json.arr (n.actions.map fun (u, a) => Json.mkObj [("uuid", strJ u), ("obs", strJ a)]).toArray),
-    ("router", match n.router with | some r => routerJ r | none => Json.null),
-    ("exits", Json.arr exits.toArray)]
+def nodeJ (n0 : NodeM) : Json :=
+  let n := renderNode n0
+  Json.mkObj [("uuid", strJ n.uuid),
+    ("actions", Json.arr (n.actions.map fun a => Json.mkObj [("uuid", strJ a.uuid), ("obs", strJ a.obs)]).toArray),
+    ("router", match n.router with | some r => fRouterJ r | none => Json.null),
+    ("exits", Json.arr (n.exits.map fExitJ).toArray)]
 
 def errJ : Err → Json
   | .critical w => Json.mkObj [("err", Json.str "critical"), ("what", Json.str w)]
